@@ -94,7 +94,7 @@ Theorem s_disconnect_leaves_nothing : forall s c, mem c (conns s) = true ->
   qof s' c = None /\ pendof s' c = 0 /\ cbs_of s' c = [].
 Proof.
   intros s c Hm. cbn [sstep]. rewrite Hm. unfold on_disconnected. cbv zeta.
-  set (s0 := upd_conns s (del c (conns s))).
+  set (s0 := semit (upd_conns s (del c (conns s))) (SDrop c)).
   set (s1 := upd_qm s0 (a_del (qm s0) c)).
   set (s2 := if running s1 then upd_reqC s1 (reqC s1 ++ [c]) else s1).
   set (s3 := upd_pendm s2 (a_del (pendm s2) c)).
@@ -220,7 +220,7 @@ Qed.
     disconnect notifications) concerns that client only. *)
 Definition ev_client (e : sev) : option Z :=
   match e with
-  | SRet c _ _ | SWr c _ | SConc c _ _ | SCb c _ _ _ | SNoCb c _ _ | SNew c | SGone c => Some c
+  | SRet c _ _ | SWr c _ | SConc c _ _ | SCb c _ _ _ | SNoCb c _ _ | SNew c | SGone c | SDrop c => Some c
   | SPanic => None
   end.
 
@@ -289,7 +289,8 @@ Proof.
     apply only_about_same_str. destruct (running s1); [destruct (qof s1 c)|]; reflexivity.
   - (* Disconnect *)
     cbn [sstep]. destruct (mem c (conns s)); [|apply only_about_refl].
-    eapply only_about_trans; [apply (only_about_same_str c s (upd_conns s (del c (conns s)))); reflexivity|apply only_about_on_disconnected].
+    eapply only_about_trans; [apply (only_about_same_str c s (upd_conns s (del c (conns s)))); reflexivity|].
+    apply (only_about_trans c _ (semit (upd_conns s (del c (conns s))) (SDrop c))); [apply only_about_semit; reflexivity|apply only_about_on_disconnected].
   - (* SSend *)
     cbn [sstep]. cbv zeta. set (s1 := set_cbs s c (cbs_of s c ++ [r])).
     match goal with |- context [if ?b then _ else _] => destruct b end.
